@@ -78,6 +78,10 @@ def fill_receivers(repo, cls, f):
                     pairs.append((n.targets[0], v))
             elif isinstance(n, ast.For) and isinstance(n.iter, ast.Name):
                 pairs.append((n.target, n.iter))
+            elif isinstance(n, ast.Expr) and isinstance(n.value, ast.Call) and isinstance(n.value.func, ast.Attribute) and \
+                    isinstance(n.value.func.value, ast.Name) and n.value.func.attr in ("append", "extend", "insert", "add") and n.value.args:
+                # waiting.append(x): the list holds what x holds
+                pairs.append((ast.Name(id=n.value.func.value.id, ctx=ast.Store()), n.value.args[-1]))
             for tgt, v in pairs:
                 src = set()
                 for x in ast.walk(v):
